@@ -91,8 +91,11 @@ let register_buffer (slices : (int * int) list) (k : int) (arg : int) (bytes : s
         [Iface.BId; Iface.BNot; Iface.BExp2; Iface.BExp4]) sl
 
 let unknown_ctr = ref 0
+let curcall = ref 0      (* index of the API call being reconstructed *)
 
-let data_of_zline (t : string list) : Iface.icall =
+let plane_cmds = [0x24; 0x26; 0x10; 0x13; 0x14; 0x15]
+
+let data_of_zline (lastcmd : int) (t : string list) : Iface.icall =
   match t with
   | _ :: ns :: h1 :: h2 :: _sig :: rest ->
       let len = int_of_string ns in
@@ -100,7 +103,7 @@ let data_of_zline (t : string list) : Iface.icall =
       let hex = L.find_opt (fun x -> String.length x >= 2 && String.sub x 0 2 <> "u=") rest in
       let uni = L.find_opt (fun x -> String.length x > 2 && String.sub x 0 2 = "u=") rest in
       (match Hashtbl.find_opt known key with
-       | Some ic when len > 2 -> ic
+       | Some ic when len > 2 || L.mem lastcmd plane_cmds -> ic
        | _ ->
            match uni, hex with
            | Some u, _ -> Iface.IDataX (n (int_of_string ("0x" ^ String.sub u 2 2)), n len)
@@ -108,12 +111,15 @@ let data_of_zline (t : string list) : Iface.icall =
                Iface.IData (Iface.DLit (L.init len (fun i -> n (int_of_string ("0x" ^ String.sub hx (2 * i) 2)))))
            | _ ->
                incr unknown_ctr;
-               Iface.IData (Iface.DArg (n 999999, n !unknown_ctr, n 0, n len)))
+               (* bytes of unknown origin: attributed to THIS call under an argument index no expectation uses,
+                  so they match no documented payload but are never mistaken for a retained buffer *)
+               Iface.IData (Iface.DArg (n !curcall, n (1000 + !unknown_ctr), n 0, n len)))
   | _ -> failwith "Z line"
 
 (* lines of one op -> transport calls *)
 let icalls_of_lines (lines : string list) : Iface.icall list =
   let toks = L.map (fun l -> String.split_on_char ' ' l) lines in
+  let last = ref (-1) in
   let rec go acc = function
     | [] -> L.rev acc
     | ("R1" :: _) :: ("T" :: "u" :: a :: _) :: ("R0" :: _) :: ("T" :: "u" :: b :: _) :: ("R1" :: _) :: ("T" :: "u" :: _ :: _) :: r ->
@@ -121,8 +127,8 @@ let icalls_of_lines (lines : string list) : Iface.icall list =
     | ("R0" :: _) :: r -> go (Iface.IReset (N0, N0) :: acc) r     (* malformed pulse: flagged as zero timing *)
     | ("R1" :: _) :: r -> go acc r
     | ("D0" :: _) :: r | ("D1" :: _) :: r -> go acc r
-    | ("C" :: c :: _) :: r -> go (Iface.ICmd (n (int_of_string ("0x" ^ c))) :: acc) r
-    | (("Z" :: _) as t) :: r -> go (data_of_zline t :: acc) r
+    | ("C" :: c :: _) :: r -> last := int_of_string ("0x" ^ c); go (Iface.ICmd (n !last) :: acc) r
+    | (("Z" :: _) as t) :: r -> go (data_of_zline !last t :: acc) r
     | ("P" :: pol :: _) :: r ->
         (* a wait loop: polls and idle delays *)
         let rec skip = function
@@ -218,6 +224,7 @@ let main (parse_op : int -> string list -> Ops.op) (bufs : (int * int, Bytes.t) 
                              let o = parse_op i t in
                              (* buffers of this call become recognisable *)
                              Hashtbl.iter (fun (k, a) b -> if k = i then register_buffer slices k a (Bytes.to_string b)) bufs;
+                             curcall := i;
                              let ic = icalls_of_lines lines in
                              let (o1, fails) = Oracle.observe p Sys.sym lref isig (n i) o0 o ic in
                              os := Some o1;
